@@ -1361,8 +1361,14 @@ fn rebuild_value(
             builder.token(k.into(), &t);
         }
     } else {
+        // A first line starting with '#' must stay on the field line: at the
+        // start of a continuation line it would turn into a comment
+        let first_is_hash = tokens
+            .iter()
+            .find(|(k, _t)| *k != NEWLINE && *k != WHITESPACE)
+            .is_some_and(|(_k, t)| t.starts_with('#'));
         // Insert a leading newline if the value is multi-line and immediate_empty_line is set
-        if immediate_empty_line && has_newline {
+        if immediate_empty_line && has_newline && !first_is_hash {
             builder.token(NEWLINE.into(), "\n");
             last_was_newline = true;
         } else {
